@@ -256,6 +256,10 @@ func (x *c14Exec) cond(e ast.Expr, s c14State, init ast.Stmt) c14Cond {
 			if strings.HasSuffix(ls, ".As") && rs == `""` {
 				return c14Cond{kind: cSym, chk: ".emptyName", neg: neg}
 			}
+			if strings.HasSuffix(ls, ".GetAggregation()") && rs == "nil" {
+				// the type oneof of an aggregation is not set
+				return c14Cond{kind: cSym, chk: ".unknownAgg", neg: neg}
+			}
 			if strings.HasSuffix(ls, ".As") && rs == "jsonpath.Current" {
 				return c14Cond{kind: cSym, chk: ".reservedName", neg: neg}
 			}
